@@ -29,6 +29,7 @@ mod exercise;
 mod rx_walk;
 mod rx_bytes;
 mod rx_restrace;
+mod rx_storetrace;
 
 fn main() {
     let args: Vec<String> = std::env::args().collect();
@@ -62,6 +63,7 @@ fn main() {
         "walk" => rx_walk::run(&args[2], &args[3], &opts),
         "bytes" => rx_bytes::run(&args[2], &args[3], &opts),
         "restrace" => rx_restrace::run(&args[2], &args[3], &opts),
+        "storetrace" => rx_storetrace::run(&args[2], &args[3], &opts),
         "cache" => rx_cache::run(&args[2], &args[3], &opts),
         "widths" => rx_font::run_widths(&args[2], &args[3], &opts),
         "cmap" => rx_font::run_cmap(&args[2], &args[3], &opts),
